@@ -475,6 +475,7 @@ pub fn run_check<E: Engine>(engine: &E, spec: &CheckSpec, tier: &str) -> i32 {
   if exit != 2 && only_config.is_none() {
     std::fs::write(format!("{edir}/{prop}.json"), serde_json::to_string_pretty(&evidence).unwrap()).expect("cannot write evidence");
   }
+  if let Ok(pat) = std::env::var("VERIF_PRINT_COUNTERS") { for (k, v) in total.stats.0.iter() { if k.contains(&pat) { println!("counter {k} = {v}"); } } }
   println!("summary property={prop} tier={tier} runs={} distinct_scenarios={} distinct_nontrivial={} traces={} steps={} wall_s={:.1} exit={exit}",
     total.runs, total.fingerprints.len(), total.nontrivial_fps.len(), total.traces.len(), total.steps, wall);
   exit
